@@ -139,6 +139,10 @@ func tokTxs(ts []*types.Transaction) string {
 	}
 	ps := []string{strconv.Itoa(len(ts))}
 	for _, t := range ts {
+		if t == nil {
+			ps = append(ps, "NILTX") // a nil *Transaction in a parsed list: never an object the callers can use
+			continue
+		}
 		ps = append(ps, tokTx(t))
 	}
 	return strings.Join(ps, " ")
@@ -1521,6 +1525,95 @@ func (g *gen) smallMsg(kind string, depth int) []byte {
 	return join(fs)
 }
 
+// ---------------------------------------------------------------- long repeated fields (deterministic)
+
+// list lengths around every power of two and around batch thresholds
+var listLensQuick = []int{3, 4, 5, 127, 128, 129, 130, 131, 257, 1001}
+var listLensThorough = []int{0, 1, 2, 3, 4, 5, 7, 8, 9, 15, 16, 17, 31, 32, 33, 63, 64, 65, 127, 128, 129, 130, 131, 255, 256, 257, 511, 512, 513,
+	1000, 1001, 1023, 1024, 1025, 4097}
+
+// tinyTx: a small but fully populated producible transaction, distinct per index (so order and identity are visible)
+func tinyTx(i int) *types.Transaction {
+	t := &types.Transaction{Source: "0x" + strconv.Itoa(i), Target: "t", Type: int32(i % 7), Time: "1", Data: strconv.Itoa(i), Nonce: uint64(i),
+		RequestId: uint64(i) * 3, ChainId: "9500"}
+	t.Hash = t.GenHash()
+	return t
+}
+
+func idxHash(i, salt int) common.Hash {
+	var h common.Hash
+	h[0] = byte(salt)
+	h[28], h[29], h[30], h[31] = byte(i>>24), byte(i>>16), byte(i>>8), byte(i)
+	return h
+}
+
+type longCase struct {
+	what string // which repeated field is long
+	op   string // parse op
+	n    int
+	b    []byte
+	want string // independent expectation: the token rendering of the objects the bytes were made from
+}
+
+// longLists builds, for every repeated field of the codec, messages whose list has exactly n entries.
+func longLists(lens []int) []longCase {
+	var out []longCase
+	for _, n := range lens {
+		txs := make([]*types.Transaction, 0, n)
+		for i := 0; i < n; i++ {
+			txs = append(txs, tinyTx(i))
+		}
+		if b, err := types.MarshalTransactions(txs); err == nil {
+			out = append(out, longCase{"TransactionSlice.transactions", "suc", n, b, "ok " + tokTxs(txs)})
+		}
+		hd := &types.BlockHeader{PreTime: time.Unix(1600000000, 0).UTC(), CurTime: time.Unix(1600000001, 5).UTC(),
+			Transactions: make([]common.Hashes, 0), EvictedTxs: make([]common.Hash, 0)}
+		if b, err := types.MarshalBlock(&types.Block{Header: hd, Transactions: txs}); err == nil && b != nil {
+			out = append(out, longCase{"Block.transactions", "buc", n, b, "ok " + tokHeader(hd) + " " + tokTxs(txs)})
+		}
+		h2 := &types.BlockHeader{PreTime: hd.PreTime, CurTime: hd.CurTime, Transactions: make([]common.Hashes, 0), EvictedTxs: make([]common.Hash, 0)}
+		for i := 0; i < n; i++ {
+			h2.Transactions = append(h2.Transactions, common.Hashes{idxHash(i, 1), idxHash(i, 2)})
+		}
+		if b, err := types.MarshalBlockHeader(h2); err == nil && b != nil {
+			b = append([]byte{}, b...)
+			out = append(out, longCase{"BlockHeader.transactions", "hu", n, b, "ok " + tokHeader(h2) + " " + hx.Hex(h2.GenHash().Bytes())})
+		}
+		h3 := &types.BlockHeader{PreTime: hd.PreTime, CurTime: hd.CurTime, Transactions: make([]common.Hashes, 0), EvictedTxs: make([]common.Hash, 0)}
+		for i := 0; i < n; i++ {
+			h3.EvictedTxs = append(h3.EvictedTxs, idxHash(i, 3))
+		}
+		if b, err := types.MarshalBlockHeader(h3); err == nil && b != nil {
+			b = append([]byte{}, b...)
+			out = append(out, longCase{"BlockHeader.EvictedTxs", "hu", n, b, "ok " + tokHeader(h3) + " " + hx.Hex(h3.GenHash().Bytes())})
+		}
+		gr := &types.Group{Header: &types.GroupHeader{BeginTime: hd.PreTime, Extends: "x"}, Id: []byte{1}}
+		for i := 0; i < n; i++ {
+			gr.Members = append(gr.Members, idxHash(i, 4).Bytes())
+		}
+		if b, err := types.MarshalGroup(gr); err == nil {
+			out = append(out, longCase{"Group.Members", "gu", n, b, "ok " + tokGroup(gr) + " " + hx.Hex(gr.Header.GenHash().Bytes())})
+		}
+		if n <= 1025 {
+			gs := &middleware_pb.GroupSlice{}
+			want := []string{}
+			for i := 0; i < n; i++ {
+				g1 := &types.Group{Header: &types.GroupHeader{BeginTime: hd.PreTime, CreateHeight: uint64(i)}, GroupHeight: uint64(i)}
+				gs.Groups = append(gs.Groups, types.GroupToPb(g1))
+				want = append(want, tokGroup(g1))
+			}
+			if b, err := proto.Marshal(gs); err == nil {
+				w := "ok 0"
+				if n > 0 {
+					w = "ok " + strconv.Itoa(n) + " " + strings.Join(want, " ")
+				}
+				out = append(out, longCase{"GroupSlice.Groups", "Gu", n, b, w})
+			}
+		}
+	}
+	return out
+}
+
 // ---------------------------------------------------------------- corpus
 
 func runCorpus(o *hx.Out) int {
@@ -1752,6 +1845,16 @@ func corr(a map[string]string) {
 			}
 		}
 	}
+	// long repeated fields: list lengths around powers of two and batch thresholds, for every repeated field
+	{
+		lens := listLensQuick
+		if scale > 1 {
+			lens = listLensThorough
+		}
+		for _, c := range longLists(lens) {
+			doParse(out, c.op, c.b)
+		}
+	}
 	// small hand-assembled messages (3..128 bytes): every field kind, every error kind
 	{
 		sg2 := &gen{r: hx.NewRng(hx.SeedFromEnv() ^ 0x5a11)}
@@ -1899,6 +2002,11 @@ func stdTimePass(t time.Time) (string, bool) {
 	return tokTime(u), true
 }
 
+func parseKindName(op string) string {
+	return map[string]string{"suc": "UnMarshalTransactions", "su": "UnMarshalTransactions", "buc": "UnMarshalBlock", "bu": "UnMarshalBlock", "hu": "UnMarshalBlockHeader",
+		"gu": "UnMarshalGroup", "Gu": "PbToGroups", "tu": "UnMarshalTransaction", "mu": "UnMarshalMember"}[op]
+}
+
 // parse oracle: object or error, never a panic, never (nil, nil), never an object that cannot be used.
 func (s *searcher) checkParse(kind string, b []byte) {
 	s.evals++
@@ -1912,6 +2020,8 @@ func (s *searcher) checkParse(kind string, b []byte) {
 		s.add(name+"-panic-"+panicClass(res), name+" panics on "+hx.Hex(b)+": "+res, rp)
 	case res == "nil":
 		s.add(name+"-nil-nil", name+" returns (nil, nil) on "+hx.Hex(b), rp)
+	case strings.Contains(res, "NILTX"):
+		s.add(name+"-nil-entry", name+" returns a transaction list with a nil entry on "+short(hx.Hex(b)), rp)
 	case strings.HasPrefix(res, "ok nilhdr"):
 		s.add(name+"-nil-header", name+" returns a block whose Header is nil, without error, on "+hx.Hex(b), rp)
 	}
@@ -2231,6 +2341,31 @@ func search(a map[string]string) {
 				for _, v := range lenFamily(k, m, 0, fill) {
 					s.checkParse(kindOp, v)
 				}
+			}
+		}
+	}
+	{
+		lens := listLensQuick
+		if os.Getenv("VERIF_TIER") == "thorough" {
+			lens = listLensThorough
+		}
+		for _, c := range longLists(lens) {
+			s.evals++
+			got := hx.Guard(func() string { return parseOp(c.op, c.b) })
+			if got != c.want {
+				d := "content"
+				switch {
+				case strings.HasPrefix(got, "PANIC"):
+					d = "panic"
+				case strings.Contains(got, "NILTX"):
+					d = "nil-entry"
+				case got == "err" || got == "nil":
+					d = got
+				}
+				s.add("long-list-"+d+"-"+c.what, fmt.Sprintf("a %s list of %d entries does not come back from the parser as it was marshalled (%s): got %s…, want %s…",
+					c.what, c.n, d, short(got), short(c.want)),
+					map[string]string{"call": parseKindName(c.op) + " of a message whose " + c.what + " has " + strconv.Itoa(c.n) + " entries", "entries": strconv.Itoa(c.n),
+						"bytes": hx.Hex(c.b), "observed": short(got), "expected": short(c.want)})
 			}
 		}
 	}
